@@ -120,3 +120,125 @@ def json_kind(doc):
     if isinstance(doc, (int, float)):
         return 'number'
     return 'string'
+
+
+# ---------------------------------------------------------------------------
+# identifiers that are not lower_case_with_underscores
+#
+# The language accepts any identifier as a field or tag name; the serializer specification keys structs by field name and
+# unions by tag name.  How the Python attribute of such a member is spelled is not documented, so the probe looks the
+# attribute up under the spec name first and under the underscore form second, and judges only the wire side.
+
+NAME_CASE_SPEC = '''namespace nc
+
+struct NameCase
+    fooBar Int32
+    Baz String?
+    x1 Int32 = 1
+    a_b Boolean?
+
+union NameCaseU
+    fooBar Int32
+    Xy
+    z_9 String?
+
+struct HoldsNames
+    inner NameCase
+    choice NameCaseU
+'''
+
+
+def _under(name):
+    import re
+    s = re.sub(r'([a-z0-9])([A-Z])', r'\1_\2', name)
+    return s.lower()
+
+
+def name_case_probe():
+    """Returns a list of (kind, what, inputs) observations that contradict the wire format / round trip for mixed-case names."""
+    out = impl.compile_specs([('nc.stone', NAME_CASE_SPEC)])
+    if out.kind != 'ok':
+        raise explore.InternalError('name-case spec not accepted: ' + out.brief())
+    pkg, fail = impl.build_python_package(out.api)
+    if pkg is None:
+        return [('generate', 'python_types fails on mixed-case names: %s' % fail.identity, {'spec': NAME_CASE_SPEC})]
+    res = []
+    try:
+        try:
+            m = pkg.mod('nc')
+        except Exception as e:  # noqa
+            return [('import', 'module with mixed-case names does not import: %r' % (e,), {'spec': NAME_CASE_SPEC})]
+        ss = pkg.ss
+
+        def attr(cls, name):
+            for cand in (name, _under(name)):
+                if hasattr(cls, cand):
+                    return cand
+            return None
+        inst = m.NameCase()
+        for fname, val in (('fooBar', 7), ('Baz', 'b'), ('a_b', True)):
+            a = attr(m.NameCase, fname)
+            if a is None:
+                res.append(('attribute', 'class NameCase has no attribute for field %s' % fname, {'spec': NAME_CASE_SPEC}))
+                return res
+            setattr(inst, a, val)
+        wire = {'fooBar': 7, 'Baz': 'b', 'a_b': True}          # x1 is not set: fields at their default are omitted
+        want = dict(wire, x1=1)
+        try:
+            enc = json.loads(ss.json_encode(m.NameCase_validator, inst))
+        except Exception as e:  # noqa
+            enc = 'raised %r' % (e,)
+        inputs = {'spec': NAME_CASE_SPEC, 'type': 'NameCase', 'value': want}
+        if enc != wire:
+            res.append(('wire:struct-keys', 'struct with mixed-case field names encodes as %s, the wire format is %s' % (json.dumps(enc), json.dumps(wire)), inputs))
+        for strict in (True, False):
+            try:
+                dec = ss.json_decode(m.NameCase_validator, json.dumps(wire), strict=strict)
+                back = {k: getattr(dec, attr(m.NameCase, k)) for k in want}
+                if back != want:
+                    res.append(('decode:struct', 'reference encoding decodes (%s) to %r' % ('strict' if strict else 'lenient', back), inputs))
+            except Exception as e:  # noqa
+                res.append(('decode:struct', 'reference encoding %s refused (%s): %s' % (json.dumps(wire), 'strict' if strict else 'lenient', e), inputs))
+            if not isinstance(enc, str):
+                try:
+                    dec2 = ss.json_decode(m.NameCase_validator, json.dumps(enc), strict=strict)
+                    if dec2 != inst:
+                        res.append(('roundtrip:struct', 'decode(encode(v)) != v (%s)' % ('strict' if strict else 'lenient'), inputs))
+                except Exception as e:  # noqa
+                    res.append(('roundtrip:struct', 'own encoding %s refused (%s): %s' % (json.dumps(enc), 'strict' if strict else 'lenient', e), inputs))
+        for tag, val, wantu in (('fooBar', 3, {'.tag': 'fooBar', 'fooBar': 3}), ('Xy', None, {'.tag': 'Xy'}), ('z_9', 's', {'.tag': 'z_9', 'z_9': 's'})):
+            a = attr(m.NameCaseU, tag)
+            inputs = {'spec': NAME_CASE_SPEC, 'type': 'NameCaseU', 'value': wantu}
+            if a is None:
+                res.append(('attribute', 'class NameCaseU has no attribute for tag %s' % tag, inputs))
+                continue
+            u = getattr(m.NameCaseU, a) if val is None else getattr(m.NameCaseU, a)(val)
+            try:
+                encu = json.loads(ss.json_encode(m.NameCaseU_validator, u))
+            except Exception as e:  # noqa
+                encu = 'raised %r' % (e,)
+            if encu != wantu:
+                res.append(('wire:union-tag', 'union with mixed-case tag names encodes as %s, the wire format is %s' % (json.dumps(encu), json.dumps(wantu)), inputs))
+            for strict in (True, False):
+                try:
+                    decu = ss.json_decode(m.NameCaseU_validator, json.dumps(wantu), strict=strict)
+                    if decu != u:
+                        res.append(('decode:union', 'reference encoding %s decodes (%s) to %r' % (json.dumps(wantu), 'strict' if strict else 'lenient', decu), inputs))
+                except Exception as e:  # noqa
+                    res.append(('decode:union', 'reference encoding %s refused (%s): %s' % (json.dumps(wantu), 'strict' if strict else 'lenient', e), inputs))
+                if not isinstance(encu, str):
+                    try:
+                        if ss.json_decode(m.NameCaseU_validator, json.dumps(encu), strict=strict) != u:
+                            res.append(('roundtrip:union', 'decode(encode(v)) != v for tag %s (%s)' % (tag, 'strict' if strict else 'lenient'), inputs))
+                    except Exception as e:  # noqa
+                        res.append(('roundtrip:union', 'own encoding %s refused (%s): %s' % (json.dumps(encu), 'strict' if strict else 'lenient', e), inputs))
+    finally:
+        pkg.close()
+    return res
+
+
+def name_case_task(prefixes):
+    """Task body for the checks: violations for the observation kinds that start with one of `prefixes`."""
+    obs = name_case_probe()
+    v = [viol('mixed-case-names:' + k, w, i) for k, w, i in obs if k.startswith(tuple(prefixes)) or k in ('generate', 'import', 'attribute')]
+    return {'outcome': 'mixed-case-names:%s' % ('differs' if v else 'same'), 'viol': v, 'n': 1, 'transitions': 1}
